@@ -143,6 +143,73 @@ class Ctx(object):
         for cu in self.world.container_uses:
             self._cont_by_site.setdefault(cu.site.key(), []).append(cu)
 
+    # ---- flat views ----
+    def flat(self, body, stop=(), depth=4):
+        """The body with the crate-private helpers it calls inlined (see flat.py); cached."""
+        from . import flat as flatmod
+        if getattr(body, "is_flat", False):
+            return body
+        key = (body.path, tuple(sorted(stop)), depth)
+        cache = self.__dict__.setdefault("_flat_cache", {})
+        if key not in cache:
+            cache[key] = flatmod.flatten(self.prog, body, flatmod.default_policy(self.prog, stop), depth)
+        return cache[key]
+
+    def rf(self, body):
+        """ResultFlow of a body (flat views carry their own; originals share the must-analysis cache)."""
+        if getattr(body, "is_flat", False):
+            r = body.__dict__.get("_rf")
+            if r is None:
+                r = flow.ResultFlow(self.prog, body)
+                body.__dict__["_rf"] = r
+            return r
+        return self.must(None).rf(body)
+
+    def flat_sites_of(self, fbody, site):
+        """The occurrences, in a flat view, of a site of the original program."""
+        k = site.key()
+        return [s for s in fbody.sites() if s.key() == k]
+
+    def effects_at(self, site):
+        return self.fx.by_site.get(site.key(), ())
+
+    def view_containing(self, body, pred, limit=5, stop=()):
+        """The smallest flat view, starting at `body` and climbing its single-caller chain, for which pred(view) holds
+        (e.g. "contains both the loader call and the replay call"); None if there is none."""
+        cur = body
+        seen = set()
+        for _ in range(limit):
+            V = self.flat(cur, stop=stop)
+            if pred(V):
+                return V
+            callers = self.prog.callers_index().get(cur.path, [])
+            direct = [(s, how) for s, how in callers if how in ("direct", "param") and s.kind == "call"]
+            if len(direct) != 1 or len(callers) != 1 or direct[0][0].body.path in seen:
+                return None
+            seen.add(cur.path)
+            cur = direct[0][0].body
+        return None
+
+    def scope_root(self, body, limit=6):
+        """The outermost function that a flat view must start from to contain `body` with all the code around its
+        only call site: climbs while the body is crate-private and has exactly one (direct) caller."""
+        seen = set()
+        cur = body
+        for _ in range(limit):
+            if cur.reachable and not cur.is_closure:
+                break
+            callers = self.prog.callers_index().get(cur.path, [])
+            direct = [(s, how) for s, how in callers if how in ("direct", "param") and s.kind == "call"]
+            if len(direct) != 1 or len(callers) != 1 or direct[0][0].body.path in seen:
+                break
+            # the caller must reach exactly this body at that site (a generic `f(..)` bound to several closures is
+            # not a place a flat view can continue through)
+            if len([1 for t, how in self.prog.call_targets(direct[0][0]) if how != "extern-cb"]) != 1:
+                break
+            seen.add(cur.path)
+            cur = direct[0][0].body
+        return cur
+
     # ---- roots ----
     def api_roots(self):
         """Externally reachable functions (effective visibility), closures excluded."""
@@ -216,6 +283,59 @@ class Ctx(object):
                     ok_roles.setdefault(e.site.body.path, set()).add(("ROLE", "PUBLISHED"))
             self._ok_roles = ok_roles
         return self._roles
+
+    def refcount_primitives(self):
+        """Bodies that mutate the refcount map directly and do not touch the key map (increment / decrement)."""
+        if getattr(self, "_prims", None) is None:
+            mut_ref = set()
+            mut_key = set()
+            for cu in self.world.container_uses:
+                if not cu.mutable:
+                    continue
+                role = ANCHOR_FIELDS.get(cu.field)
+                if role == "REFCNT":
+                    mut_ref.add(cu.site.body.path)
+                elif role == "KEYMAP":
+                    mut_key.add(cu.site.body.path)
+            self._prims = sorted(mut_ref - mut_key)
+        return self._prims
+
+    def apply_roots(self):
+        """The functions that apply an operation to the in-memory state: the outermost crate-private bodies above the
+        direct key-map mutators whose own (transitive) events are pure state manipulation - no file system, no lock.
+        A dispatcher over per-variant helpers is one apply root; its callers (which also write the log) are not."""
+        if getattr(self, "_apply_roots", None) is None:
+            def pure(path):
+                return all(e[0] in ("CONT", "ROLE") for e in self.may.all_events(path)) and \
+                    not self.locks.acquires(path)
+            roots = set()
+            for p in self.role_bodies():
+                cur = p
+                for _ in range(6):
+                    callers = [s.body.path for s, how in self.prog.callers_index().get(cur, []) if how == "direct"]
+                    ups = sorted(set(c for c in callers if pure(c) and not self.prog.bodies[c].is_closure))
+                    if len(ups) == 1 and len(set(callers)) == 1:
+                        cur = ups[0]
+                    else:
+                        break
+                roots.add(cur)
+            self._apply_roots = sorted(roots)
+        return self._apply_roots
+
+    def apply_view(self, root_path):
+        """Flat view of an apply root: per-variant helpers and bookkeeping wrappers inlined, the two refcount
+        primitives kept as calls (their meaning is checked separately)."""
+        return self.flat(self.prog.bodies[root_path], stop=tuple(self.refcount_primitives()))
+
+    def apply_family(self):
+        """Every body that is part of an apply view (root, inlined helpers) plus the refcount primitives."""
+        if getattr(self, "_apply_family", None) is None:
+            fam = set(self.refcount_primitives())
+            for p in self.apply_roots():
+                fam.add(p)
+                fam |= set(self.apply_view(p).inlined)
+            self._apply_family = fam
+        return self._apply_family
 
     def role_ok_bodies(self):
         """SETTINGS_CHECKED: the body that reads the settings file returned Ok (stored settings were
